@@ -280,6 +280,10 @@ func (prop) Generate(rng *core.Rand, tier string, emit func(string)) {
 			emit(genKey(prx))
 			continue
 		}
+		if k%12 == 2 {
+			emit(genCf(prx))
+			continue
+		}
 		pool := genPool(rng, tier)
 		chain := genChain(rng, pool)
 		leaf := chain[len(chain)-1]
